@@ -716,15 +716,15 @@ theorem depositOkex_ok {α κ η χ C π μ τ : Type} [BEq η] [BEq μ] (V : Ve
       | none => simp [hpf] at hok
       | some proof =>
         simp only [hpf] at hok
-        by_cases g0 : (!sc) = true
-        · rw [if_pos g0] at hok; cases hok
-        · rw [if_neg g0] at hok
-          by_cases g1 : ((shape proof).nOps != 2) = true
-          · rw [if_pos g1] at hok; cases hok
-          · rw [if_neg g1] at hok
-            by_cases g2 : ((shape proof).key0Len != 53) = true
-            · rw [if_pos g2] at hok; cases hok
-            · rw [if_neg g2] at hok
+        by_cases g1 : ((shape proof).nOps != 2) = true
+        · rw [if_pos g1] at hok; cases hok
+        · rw [if_neg g1] at hok
+          by_cases g2 : ((shape proof).key0Len != 53) = true
+          · rw [if_pos g2] at hok; cases hok
+          · rw [if_neg g2] at hok
+            by_cases g0 : (!sc) = true
+            · rw [if_pos g0] at hok; cases hok
+            · rw [if_neg g0] at hok
               by_cases g3 : (!(shape proof).key0HasPrefix) = true
               · rw [if_pos g3] at hok; cases hok
               · rw [if_neg g3] at hok
